@@ -58,6 +58,11 @@ pub open spec fn blocks_ok(m: Map<MessageType, Component>) -> bool {
     (m.contains_key(MessageType::ScNet) ==> has_key(m[MessageType::ScNet].fields(), "channelIdArray"@))
     && (m.contains_key(MessageType::ScCore) ==> has_key(m[MessageType::ScCore].fields(), "rdpVersion"@))
 }
+/// clientName of TS_UD_CS_CORE (MS-RDPBCGR 2.2.1.3.2): at most 15 UTF-16 code units and a null terminator, zero padded to 32 bytes.
+/// `u` = UTF-16LE bytes of the name. A high surrogate (code unit 0xD800..0xDBFF: high byte & 0xFC == 0xD8) at unit 14 would be split
+/// from its low surrogate by the cut at 30 bytes, so it is dropped as well.
+pub open spec fn client_name_cut(u: Seq<u8>) -> int { if u.len() <= 30 { u.len() as int } else if u[29] & 0xFC == 0xD8 { 28 } else { 30 } }
+pub open spec fn client_name_bytes(u: Seq<u8>) -> Seq<u8> { u.take(client_name_cut(u)) + Seq::new((32 - client_name_cut(u)) as nat, |i: int| 0u8) }
 /// TS_UD_HEADER (MS-RDPBCGR 2.2.1.3.1): type, length INCLUDING the 4 header bytes
 pub open spec fn ud_header(ty: u16, body_len: int) -> Seq<u8> { le16(ty) + le16((body_len + 4) as u16) }
 /// T.124 ConferenceCreateRequest wrapper of the client data blocks (MS-RDPBCGR 2.2.1.3): key OID 0.0.20.124.0.1, connect-data length,
@@ -84,7 +89,13 @@ GF("from", impl=r"From<u32> for Version", props=["C18", "C05"],
    ensures=[("C18", "named-versions", "(e == 0x00080001 ==> r == Version::RdpVersion) && (e == 0x00080004 ==> r == Version::RdpVersion5plus) && (e != 0x00080001 && e != 0x00080004 ==> r == Version::Unknown)")])
 GF("from", impl=r"From<u16> for MessageType", props=["C05"])
 GF("client_core_data", ret="c", props=["C04"], fuel=3, post=len_chain("c", CORE_SIZES),
-   ensures=shape_clauses(GCC, "client_core_data", res="c") + [("C04", "fixed-size-212", "ser(c.mv()).len() == 212"), ("C04", "client-name-32-bytes", "c.fields()[7].1 is Bytes && c.fields()[7].1->Bytes_0.len() == 32")])
+   hints=[(r"let mut client_name = client_parameter\.name\.to_unicode\(\);", 1, "let ghost u = client_name@; proof { assert(u == utf16le(if parameter is Some { parameter->Some_0.name@ } else { \"\"@ })); }"),
+          (r"client_name\.truncate\(30\);", 1, "proof { assert(client_name@ =~= u.take(30)); assert(client_name@[29] == u[29]); }"),
+          (r"client_name\.truncate\(28\);", 1, "proof { assert(client_name@ =~= u.take(28)); }"),
+          (r"client_name\.resize\(32, 0\);", 1, "proof { assert(client_name@ =~= client_name_bytes(u)); }")],
+   ensures=shape_clauses(GCC, "client_core_data", res="c") + [("C04", "fixed-size-212", "ser(c.mv()).len() == 212"), ("C04", "client-name-32-bytes", "c.fields()[7].1 is Bytes && c.fields()[7].1->Bytes_0.len() == 32"),
+            ("C04", "client-name-null-terminated", "c.fields()[7].1->Bytes_0[30] == 0 && c.fields()[7].1->Bytes_0[31] == 0"),
+            ("C04", "client-name-bytes", "c.fields()[7].1 == MV::Bytes(client_name_bytes(utf16le(if parameter is Some { parameter->Some_0.name@ } else { \"\"@ })))")])
 GF("server_core_data", ret="c", props=["C05"], ensures=shape_clauses(GCC, "server_core_data", res="c"))
 GF("client_security_data", ret="c", props=["C04"], fuel=4, ensures=shape_clauses(GCC, "client_security_data", res="c") + [("C04", "size", "ser(c.mv()).len() == 8")])
 GF("server_security_data", ret="c", props=["C05"], ensures=shape_clauses(GCC, "server_security_data", res="c"))
@@ -165,8 +176,7 @@ def MF(name, impl=None, **kw):
 DER_WHY = "BER/DER through the yasna crate and src/nla/asn1.rs (external)"
 A(Stub(MCS, "connect_initial", mod="mcs", why=DER_WHY))
 A(Stub(MCS, "connect_response", mod="mcs", why=DER_WHY, ensures=["r.inner.skeys().contains(\"userData\"@) && r.inner.octet_keys().contains(\"userData\"@)"]))
-MF("mcs_pdu_header", props=["C04", "C03"], ensures=[("C04", "choice-and-options", "r == (((if pdu is Some { pdu->Some_0 as u8 } else { 11u8 }) << 2) | (if options is Some { options->Some_0 } else { 0u8 }))")],
-   requires=["true"])
+MF("mcs_pdu_header", props=["C04", "C03"], ensures=[("C04", "choice-and-options", "r == (((if pdu is Some { pdu->Some_0 as u8 } else { 11u8 }) << 2) | (if options is Some { options->Some_0 } else { 0u8 }))")])
 # `confirm` = trame![u8, Vec (read to end)]: a plain layout, so the bytes consumed are ser(confirm) = [header] + body (Message::read, is_plain clause)
 CONFIRM_PRE = "let ghost b = buffer.rest(); proof { lemma_pdu_headers(); reveal_with_fuel(is_plain, 3); reveal_with_fuel(same_shape, 3); }"
 CONFIRM_HINTS = [(r"confirm\.read\(buffer\)\?;", 1, "let ghost m0 = confirm.mv(); proof { assert(m0->Trame_0 =~= seq![MV::U8(0), MV::Bytes(Seq::empty())]); assert(is_plain(m0)); }", "before"),
@@ -191,7 +201,7 @@ MF("read_channel_join_confirm", props=["C05", "C03"], fuel=4, pre=CONFIRM_PRE, h
    ensures=[("C03", "confirms-the-requested-ids", "r is Ok ==> old(buffer).rest().len() >= 6 && old(buffer).rest()[0] >> 2 == 15 && user_id as int == u16_be(old(buffer).rest()[2], old(buffer).rest()[3]) as int + 1001 && channel_id == u16_be(old(buffer).rest()[4], old(buffer).rest()[5]) && r->Ok_0 == (old(buffer).rest()[1] == 0)")])
 MF("new", impl=r"Client<S>", props=["C03"], ensures=["r.uid() is None && r.chans() == Map::<Seq<char>, u16>::empty() && r.written() == x224.written() && r.rest() == x224.rest() && r.tls() == x224.tls()"])
 FRAME_CL = [(None, "frame", "final(self).tls() == old(self).tls() && is_prefix(old(self).written(), final(self).written()) && is_suffix(final(self).rest(), old(self).rest())")]
-MF("write_connect_initial", impl=r"Client<S>", props=["C03", "C04"], requires=["client_name@.len() <= 1024"], fuel=10,
+MF("write_connect_initial", impl=r"Client<S>", props=["C03", "C04"], fuel=10,
    hints=[(r"let user_data = to_vec", 1, "proof { assert(ser(client_network_data.mv()).len() == 4); }", "before"),
           (r"let conference = ", 1, "proof { assert(user_data@.len() == 236); }", "before"),
           (r"self\.x224\.write\(to_der", 1, "let ghost w0 = self.x224.written();", "before")],
@@ -201,7 +211,7 @@ MF("write_connect_initial", impl=r"Client<S>", props=["C03", "C04"], requires=["
 MF("read_connect_response", impl=r"Client<S>", props=["C05", "C03"],
    ensures=FRAME_CL + [(None, "nothing-written", "final(self).written() == old(self).written() && final(self).uid() == old(self).uid() && final(self).chans() == old(self).chans()"),
                        ("C03", "server-data-recorded", "r is Ok ==> final(self).server_data is Some")])
-MF("connect", impl=r"Client<S>", props=["C03", "C05"], requires=["client_name@.len() <= 1024", "old(self).uid() is None", "old(self).chans() == Map::<Seq<char>, u16>::empty()"],
+MF("connect", impl=r"Client<S>", props=["C03", "C05"], requires=["old(self).uid() is None", "old(self).chans() == Map::<Seq<char>, u16>::empty()"],
    body_sub=[(r"for channel_id in self\.channel_ids\.values\(\) \{", "let __channel_ids = hashmap_values(&self.channel_ids); for channel_id in __channel_ids.iter() {")],
    nloops=1,
    pre="let ghost w0 = self.x224.written(); let ghost r0 = self.x224.rest(); proof { lemma_pdu_headers(); }",
@@ -219,37 +229,38 @@ MF("connect", impl=r"Client<S>", props=["C03", "C05"], requires=["client_name@.l
             assert(cm.dom() =~= Set::<Seq<char>>::empty().insert("global"@).insert("user"@));
             assert(cm.dom().len() == 2);
         }"""),
-          (r"let __channel_ids = hashmap_values", 1, """let ghost v = __channel_ids@;
+          (r"let __channel_ids = hashmap_values\(&self\.channel_ids\);", 1, """let ghost v = __channel_ids@;
         proof {
             assert(v.len() == 2);
             assert(cm.contains_key("global"@) && cm.contains_key("user"@));
             assert(forall|k: Seq<char>| cm.contains_key(k) ==> k == "global"@ || k == "user"@);
             assert((v[0] == 1003 || v[0] == uid) && (v[1] == 1003 || v[1] == uid));
             assert((v[0] == 1003 && v[1] == uid) || (v[1] == 1003 && v[0] == uid));
-        }""", "at"),
+        }""", "atend"),
           (r"__channel_ids\.iter\(\)", 1, "__it:", "at"),
           (r"self\.x224\.write\(channel_join_request\(", 1, "let ghost wa = self.x224.written(); let ghost ra = self.x224.rest();", "before"),
           (r"self\.x224\.write\(channel_join_request\(", 1, "let ghost wb = self.x224.written(); proof { assert(*channel_id == v[__it.index@]); assert(wb =~= wa + frame(channel_join_bytes(uid, *channel_id))); lemma_prefix_trans(w0, wa, wb); }"),
-          (r"if !read_channel_join_confirm\(", 1, "let ghost __x = 0;", "before")],
+          (r"Ok\(\(\)\)", 1, """proof {
+        assert(self.x224.written() == w3 + frame(channel_join_bytes(uid, v[0])) + frame(channel_join_bytes(uid, v[1])));
+        assert((frame(ci) + frame(channel_join_bytes(uid, v[0])) + frame(channel_join_bytes(uid, v[1]))).len() > 0);
+        assert(self.x224.written() =~= w0 + frame(ci) + frame(erect_domain_bytes()) + frame(attach_user_bytes()) + frame(channel_join_bytes(uid, v[0])) + frame(channel_join_bytes(uid, v[1])));
+   }""", "before")],
    loops={1: """invariant
             self.user_id == Some(uid), uid >= 1001, self.channel_ids.m() == cm, self.server_data is Some,
             self.x224.tls() == old(self).x224.tls(),
+            w0 == old(self).x224.written(), r0 == old(self).x224.rest(),
             is_prefix(w0, self.x224.written()), is_suffix(self.x224.rest(), r0),
             __it.seq().len() == 2, v.len() == 2, forall|k: int| 0 <= k < 2 ==> __it.seq()[k] == v[k],
             __it.index@ == 0 ==> self.x224.written() == w3,
             __it.index@ == 1 ==> self.x224.written() == w3 + frame(channel_join_bytes(uid, v[0])),
             __it.index@ == 2 ==> self.x224.written() == w3 + frame(channel_join_bytes(uid, v[0])) + frame(channel_join_bytes(uid, v[1])),"""},
-   post="""proof { if r is Ok {
-        assert(self.x224.written() == w3 + frame(channel_join_bytes(uid, v[0])) + frame(channel_join_bytes(uid, v[1])));
-        assert((frame(ci) + frame(channel_join_bytes(uid, v[0])) + frame(channel_join_bytes(uid, v[1]))).len() > 0);
-        assert(self.x224.written() =~= w0 + frame(ci) + frame(erect_domain_bytes()) + frame(attach_user_bytes()) + frame(channel_join_bytes(uid, v[0])) + frame(channel_join_bytes(uid, v[1])));
-   } }""",
    ensures=FRAME_CL + [("C03", "connected", "r is Ok ==> final(self).connected() && final(self).chans().contains_key(\"user\"@) && final(self).chans()[\"global\"@] == 1003 && final(self).chans()[\"user\"@] == final(self).uid()->Some_0 && final(self).server_data is Some"),
                        ("C03", "sequence-in-order", """r is Ok ==> exists|ci: Seq<u8>, c1: u16, c2: u16| #[trigger] (frame(ci) + frame(channel_join_bytes(final(self).uid()->Some_0, c1)) + frame(channel_join_bytes(final(self).uid()->Some_0, c2))).len() > 0
                             && ((c1 == 1003 && c2 == final(self).uid()->Some_0) || (c2 == 1003 && c1 == final(self).uid()->Some_0))
                             && final(self).written() =~= old(self).written() + frame(ci) + frame(erect_domain_bytes()) + frame(attach_user_bytes())
                                 + frame(channel_join_bytes(final(self).uid()->Some_0, c1)) + frame(channel_join_bytes(final(self).uid()->Some_0, c2))""")])
-MF("write", impl=r"Client<S>", props=["C11", "C12", "C03", "C04"], fuel=8, pre="proof { lemma_pdu_headers(); }", **MCS_WRITE)
+MF("write", impl=r"Client<S>", props=["C11", "C12", "C03", "C04"],
+   pre="proof { lemma_pdu_headers(); reveal_with_fuel(ser, 8); reveal_with_fuel(ser_seq_from, 8); }", **MCS_WRITE)
 MF("read", impl=r"Client<S>", props=["C05", "C06", "C10"],
    body_sub=[(r"self\.channel_ids\.iter\(\)\.find\(\|x\| \*x\.1 == channel_id\)", "hashmap_find_by_value(&self.channel_ids, channel_id)")], **MCS_READ)
 MF("shutdown", impl=r"Client<S>", props=["C03"], fuel=8, pre="proof { lemma_pdu_headers(); }",
